@@ -93,7 +93,9 @@ def dump_type(t, comp_of, dedupe=False):
     """structural dump of an IR type; model pointers are rendered by the component of the pointed model so that
     the (legitimate) retargeting of pointers to merged models is invisible"""
     if isinstance(t, ModelPtr):
-        return ("ptr", comp_of(t.type))
+        c = comp_of(t.type)
+        # a canonical spelling: two equal frozensets may iterate (and so print, and so sort) differently
+        return ("ptr", tuple(sorted(c, key=str)) if isinstance(c, (set, frozenset)) else c)
     if isinstance(t, DOptional):
         return ("opt", dump_type(t.type, comp_of, dedupe))
     if isinstance(t, DUnion):
